@@ -50,14 +50,33 @@ def run(ctx: Ctx) -> None:
         ctx.ob("R19.1", f"preprocessor:{fname}|anchored file-name test", ok,
                msg=f"{why}: an included file whose name merely ends with the main file's name (x{'main.h'} vs main.h, dir/main.h) is taken for the main file and its declarations are kept",
                node=keeps[0].stmt if keeps else fn, mod=pp)
-        writes = [n for n in cfg.nodes if n.kind == "stmt" and isinstance(n.stmt, ast.Expr) and isinstance(n.stmt.value, ast.Call) and norm(n.stmt.value.func).endswith(".write")]
+        # emission of the current line: <accumulator>.write(line) / .append(line) / acc += line, for the loop variable
+        loops_ = [n for n in cfg.nodes if n.kind == "test" and isinstance(n.stmt, ast.For) and isinstance(n.stmt.target, ast.Name)]
+        lvars = {n.stmt.target.id for n in loops_}
+        writes = []
+        for n in cfg.nodes:
+            st = n.stmt
+            if n.kind != "stmt":
+                continue
+            if isinstance(st, ast.Expr) and isinstance(st.value, ast.Call) and isinstance(st.value.func, ast.Attribute) and st.value.func.attr in ("write", "append") and len(st.value.args) == 1 \
+                    and isinstance(st.value.args[0], ast.Name) and st.value.args[0].id in lvars:
+                writes.append(n)
+            elif isinstance(st, ast.AugAssign) and isinstance(st.op, ast.Add) and isinstance(st.value, ast.Name) and st.value.id in lvars:
+                writes.append(n)
         okw = len(writes) == 1
-        whyw = "expected exactly one write of the current line"
+        whyw = "expected exactly one place where the current line is added to the output"
         if okw:
             deps = [(norm(d.cond), lab) for d, lab in cfg.control_deps(writes[0]) if d.loop is None and not isinstance(d.stmt, ast.Assert)]
             conts = [n for n in cfg.nodes if n.kind == "stmt" and isinstance(n.stmt, ast.Continue)]
             okw = deps == [("keep", "T")] and not conts
             whyw = f"a line is written under {deps}{' and the loop skips lines with `continue`' if conts else ''}: line markers of the main file are dropped, so every later line number is off"
+            if okw and loops_:
+                # the decision uses this line's own marker: no update of `keep` after the write within the same iteration
+                head = loops_[0]
+                late = [k for k in keeps if cfg.paths_avoiding(writes[0], k, lambda z: z is head)]
+                if late:
+                    okw = False
+                    whyw = "a marker line is written (or not) according to the `keep` of the line before it: the marker that returns to the main file is dropped and the one that leaves it is kept, so locations name the included file"
         ctx.ob("R19.2", f"preprocessor:{fname}|every kept line is written, markers included", okw, msg=whyw, node=writes[0].stmt if writes else fn, mod=pp)
 
     # ---------------------------------------------------------------- R19.3
@@ -93,7 +112,25 @@ def run(ctx: Ctx) -> None:
            msg="the requested targets are not passed one by one with -MQ (joined targets are quoted by gcc into a single bogus target), or -MD/-MF are missing", node=g, mod=pp)
     p = pp.func("make_pcpp_preprocessor._preprocess_file")
     ptxt = norm(p)
-    ok = "dfp.write(f'{target}:')" in ptxt and "for dep in reversed(list(deps.keys()))" in ptxt and "_pcpp_filter(filename, fp, deps)" in ptxt
+    # the dict handed to the filter is the one the depfile loop walks; the file starts with "<target>:" and names every key
+    ok = False
+    fcalls = [c for c in ast.walk(p) if isinstance(c, ast.Call) and isinstance(c.func, ast.Name) and c.func.id == "_pcpp_filter" and len(c.args) >= 3 and isinstance(c.args[2], ast.Name)]
+    if len(fcalls) == 1:
+        dname = fcalls[0].args[2].id
+        for w in ast.walk(p):
+            if not isinstance(w, ast.With):
+                continue
+            opens = [it for it in w.items if isinstance(it.context_expr, ast.Call) and isinstance(it.context_expr.func, ast.Name) and it.context_expr.func.id == "open" and it.context_expr.args
+                     and "depfile" in norm(it.context_expr.args[0]) and isinstance(it.optional_vars, ast.Name)]
+            if not opens:
+                continue
+            fh = opens[0].optional_vars.id
+            writes = [c for b in w.body for c in ast.walk(b) if isinstance(c, ast.Call) and isinstance(c.func, ast.Attribute) and c.func.attr == "write" and isinstance(c.func.value, ast.Name) and c.func.value.id == fh]
+            head = bool(writes) and "target" in norm(writes[0].args[0]) and ":" in norm(writes[0].args[0])
+            loops_ = [f for b in w.body for f in ast.walk(b) if isinstance(f, ast.For) and any(isinstance(x, ast.Name) and x.id == dname for x in ast.walk(f.iter)) and isinstance(f.target, ast.Name)]
+            each = bool(loops_) and any(isinstance(c, ast.Call) and isinstance(c.func, ast.Attribute) and c.func.attr == "write" and any(isinstance(x, ast.Name) and x.id == loops_[0].target.id for x in ast.walk(c))
+                                        for b in loops_[0].body for c in ast.walk(b))
+            ok = head and each
     ctx.ob("R19.3", "preprocessor:make_pcpp_preprocessor|depfile names the target and every collected file", ok, msg="the pcpp depfile no longer lists the target followed by every file the filter collected", node=p, mod=pp)
     pf = pp.func("_pcpp_filter")
     ftxt = norm(pf)
